@@ -57,12 +57,27 @@ theorem writeToConsumer_ids_aux (a1 : App) (k : Consumer) (w : Nat) (ex : Option
       exact ⟨by simp [App.assignedIds, disconnectConsumer, List.filterMap_append, Ev.aid], rfl, rfl⟩
     · exact SameIds.refl a1
 
+theorem writeEvents_aid (a : App) (r : Bytes) (kick : Bool) : (writeEvents a r kick).filterMap Ev.aid = [] := by
+  cases kick <;> cases h : a.fcConsumer <;> simp [writeEvents, h, Ev.aid]
+
 theorem writeToConsumer_ids (a : App) (k : Consumer) (r : Bytes) (kick : Bool) :
     SameIds a (writeToConsumer a k r kick).1 := by
   have h1 : SameIds a { a with consumer := some { k with written := k.written + r.length },
-                                log := a.log ++ [if kick then .ckick else .cwrite r] } :=
-    ⟨by cases kick <;> simp [App.assignedIds, List.filterMap_append, Ev.aid], rfl, rfl⟩
+                                log := a.log ++ writeEvents a r kick } :=
+    ⟨by simp [App.assignedIds, List.filterMap_append, writeEvents_aid], rfl, rfl⟩
   exact SameIds.trans h1 (writeToConsumer_ids_aux _ k (k.written + r.length) k.expected)
+
+theorem attachConsumer_order (a : App) (ex : Option Nat) (fc : Bool) (s rest : List Act) (hi : OrderInv a) :
+    OrderInv (attachConsumer a ex fc s rest).1 := by
+  simp only [attachConsumer]
+  split
+  · exact (sameIds_emit a _ (by simp [Ev.aid])).inv hi
+  · have h1 : SameIds a { a with consumer := some { cid := a.nextCid, written := 0, expected := ex, cb := none },
+                                 nextCid := a.nextCid + 1, fcConsumer := fc, log := a.log ++ [.reg] } :=
+      ⟨by simp [App.assignedIds, List.filterMap_append, Ev.aid], rfl, rfl⟩
+    split
+    · exact (SameIds.trans h1 (writeToConsumer_ids _ _ [] true)).inv hi
+    · exact h1.inv hi
 
 theorem fireRead_ids (a : App) (d : Reader) (r : Bytes) :
     (fireRead a d r).1.assignedIds = a.assignedIds ++ [d.id] ∧ ids (fireRead a d r).1.waiting = ids a.waiting ∧
@@ -176,19 +191,10 @@ theorem appStep_order (a : App) (fr : Frame) (hi : OrderInv a) : OrderInv (appSt
           rcases List.mem_append.mp hx with h | h
           · exact Nat.lt_succ_of_lt (h2 x h)
           · simp at h; subst h; exact Nat.lt_succ_self _
-      | consume ex s =>
-        simp only [appStep]
-        split
-        · exact (sameIds_emit a _ (by simp [Ev.aid])).inv hi
-        · split
-          · have h1 : SameIds a { a with consumer := some { cid := a.nextCid, written := 0, expected := ex, cb := none },
-                                         nextCid := a.nextCid + 1, log := a.log ++ [.reg] } :=
-              ⟨by simp [App.assignedIds, List.filterMap_append, Ev.aid], rfl, rfl⟩
-            exact (SameIds.trans h1 (writeToConsumer_ids _ _ [] true)).inv hi
-          · have h1 : SameIds a { a with consumer := some { cid := a.nextCid, written := 0, expected := ex, cb := none },
-                                         nextCid := a.nextCid + 1, log := a.log ++ [.reg] } :=
-              ⟨by simp [App.assignedIds, List.filterMap_append, Ev.aid], rfl, rfl⟩
-            exact h1.inv hi
+      | consume ex s => exact attachConsumer_order a ex false s rest hi
+      | consumeFC ex s => exact attachConsumer_order a ex true s rest hi
+      | pause => exact (sameIds_emit a _ (by simp [Ev.aid])).inv hi
+      | resume => exact (sameIds_emit a _ (by simp [Ev.aid])).inv hi
       | detach =>
         simp only [appStep]
         split
